@@ -168,8 +168,8 @@ var evNames = map[simdjson.SimEvent]string{
 }
 
 func hookDispatch(ev simdjson.SimEvent, h simdjson.SimHandle, arg int) {
-	if t := hookTap; t != nil {
-		t(ev, h, arg)
+	if t := hookTap.Load(); t != nil {
+		(*t)(ev, h, arg)
 	}
 	s := curSched.Load()
 	if s == nil {
